@@ -233,6 +233,12 @@ def run_job(job, scratch):
         sys.stdout, sys.stderr = old_out, old_err
         if world is not None:
             world.threads.release_all()
+            # hygiene: no thread of this job may still be running (and hand
+            # its ident on) when the next job of this worker starts
+            import time as _time
+            t0 = _time.monotonic()
+            while len(sys._current_frames()) > 1 and _time.monotonic() - t0 < 10:
+                _time.sleep(0.002)
     if kind == 'stringio':
         res['stdout'] = out.getvalue()
         res['stderr'] = err.getvalue()
